@@ -457,6 +457,9 @@ func doReplay(path string) {
 	if err := json.Unmarshal(b, &raw); err == nil && json.Unmarshal(raw.Replay, &probe) == nil && probe.Suite == "chains" {
 		replayChain(raw.Replay, path) // a chain program (chains.go); does not return
 	}
+	if probe.Suite == "alias" {
+		replayAlias(raw.Replay, path) // a program of part alias (alias.go); does not return
+	}
 	var f struct {
 		Key    string    `json:"key"`
 		Replay replayArt `json:"replay"`
@@ -518,7 +521,7 @@ func main() {
 	run = ev.Start("C20", "model_checking")
 	samples = ev.NewSamples(12, run.Seed)
 	ss := suitesFor(run.Thorough())
-	withChains := true
+	withChains, withAlias := true, true
 	if sel := os.Getenv("VERIF_C20_SUITES"); sel != "" { // development aid: run a subset (the evidence then says so)
 		var keep []*suite
 		for _, s := range ss {
@@ -528,6 +531,7 @@ func main() {
 		}
 		ss = keep
 		withChains = strings.Contains(","+sel+",", ",chains,")
+		withAlias = strings.Contains(","+sel+",", ",alias,")
 		run.Incomplete("only suites " + sel + " were run (VERIF_C20_SUITES)")
 	}
 	bounds := map[string]any{"budgets_ms": budgets, "weights": weights, "jitter_answers": "min,max", "excluded_cap_ms": excludedLimitMs}
@@ -567,6 +571,26 @@ func main() {
 		}
 		perSuite["chains"] = map[string]any{"programs": cs.programs, "programs_reaching_exhaustion": cs.refusedPrograms, "states": cs.states, "transitions": cs.steps, "max_overshoot_over_budget_ms": cs.maxOvershoot, "len_single": cb.lenSingle, "len_pair": cb.lenPair}
 	}
+	// part "alias" (alias.go): a source with 0..n prior back-offs, two derived back-offers, all interleavings of their steps
+	if withAlias {
+		as := runAlias(run.Thorough())
+		// states of this part = distinct (budget, operation prefix) pairs (the programs share prefixes; nothing else is merged)
+		nStates += as.states
+		nNontrivial += as.nontrivial
+		nTransitions.Add(as.steps)
+		nOpsExecuted.Add(as.steps)
+		b := as.bounds
+		bounds["alias"] = map[string]any{
+			"prior_backoffs": b.priors, "kinds_among_prior_backoffs": b.patterns, "prior_kinds": aliasOldKinds, "source_made_via": viaNames, "derived_pairs": shapeNames,
+			"second_derived_taken": "with the first | right before its first step", "jitter_answers": len(b.jits),
+			"steps_per_derived_backoffer": b.maxAB, "steps_per_derived_backoffer_when_source_steps": b.maxABwS, "steps_of_source": b.maxS,
+			"step_kinds": aliasStepKinds[:3], "steps_per_derived_backoffer_with_excluded_kind": b.maxABExcl,
+			"budget": "the total of D1 | D2 | S (if it steps) after its last step", "ending": "UpdateUsingForked of D1 | D2 into its parent (if it has one), then one back-off of the receiver and of the other derived back-offer",
+			"merge_into_top_of_parent_chain": b.farMerge,
+		}
+		perSuite["alias"] = map[string]any{"sources_x_derivations": as.bases, "step_sequences": as.seqs, "programs": as.programs, "states": as.states, "states_after_a_step_behind_the_derivation": as.nontrivial,
+			"transitions": as.steps, "refused_probe_calls": as.probes, "refused_probe_calls_with_a_defined_longest_kind": as.probesDef}
+	}
 	if stopProfile != nil {
 		stopProfile()
 	}
@@ -595,7 +619,12 @@ func main() {
 			"non-trivial = states in which at least one back-off was accounted; suite kinds: one backoffer x every built-in kind + a custom FullJitter config; suite family: up to 3 live backoffers (clone/fork/merge/cancel/kill) x core kinds; " +
 			"thorough adds family-ext (three more back-off calls) and deep (a backoffer and one fork of it at a time, reduced alphabet, depth 8); see per_suite for depths and (budget, weight) pairs; " +
 			"part chains (no replay, oracle after every step on the same backoffer): for every kind (built-in + synthetic grid jitter mode x base x cap) every chain program single/alternate/halves of bounds.chains.len_* back-offs x jitter {min,max} per kind x " +
-			"budget {none, never reached, exactly the total at half of the chain, +1, half with weight 2, exactly the total at 7/8 of the chain} x per-call maximum x {Clone and Fork aside, Fork + UpdateUsingForked} every k-th step; its states = (program, position) pairs, its transitions = operations executed and judged",
+			"budget {none, never reached, exactly the total at half of the chain, +1, half with weight 2, exactly the total at 7/8 of the chain} x per-call maximum x {Clone and Fork aside, Fork + UpdateUsingForked} every k-th step; its states = (program, position) pairs, its transitions = operations executed and judged; " +
+			"part alias (no replay, no deduplication, oracle after every operation): a source back-offer with bounds.alias.prior_backoffs prior back-offs of 1-3 kinds made directly / on a root it is forked from / half before and half after the fork / " +
+			"on a fork merged back, x two derived back-offers (bounds.alias.derived_pairs, the second taken at once or right before its first step) x every interleaving of 1..steps_per_derived_backoffer back-offs of each of them " +
+			"(and 0..steps_of_source of the source) x every kind of step_kinds per step x budget = exactly the total of one of them after its last step x optional UpdateUsingForked ending; after every operation every live back-offer is observed " +
+			"and every back-offer the reference calls exhausted is probed with one more call (must be refused, report its own longest sleeper, change nothing); its states = distinct (budget, operation prefix) pairs, " +
+			"its transitions = operations executed and judged (probes included), non-trivial = states behind a back-off that follows the derivation",
 		"samples": samples.List(),
 	}, []string{
 		"the 10 min own cap of the budget-excluded kind (tikvServerBusy) is lowered to 3000ms with the package's own test-only setter so that exhausting it is reachable; the oracle bounds excluded sleep by max(own cap, budget) + one step because the code demands both (with budget <= cap this is the property's bound)",
@@ -606,6 +635,7 @@ func main() {
 		"breadth-first suites: the exact exponential schedule (base*2^n, jitter range) is not demanded: only sleep <= cap and <= per-call maximum; a schedule different from the documented one marks the run non-exhaustive because deduplication relies on it",
 		"part chains: the documented schedule min(cap, base*2^n) with the documented jitter (NoJitter: exact; Full: Intn(v); Equal: v/2+Intn(v/2); Decorr: min(cap, base+Intn(3*last-base))) IS demanded step by step (it is what 'one step' and 'the exponential cap of its kind' of the property refer to); DecorrJitter configs with cap < base are not explored (3*cap-base <= 0 makes the documented draw range empty)",
 		"GetTypes is only required to list the kinds the backoffer itself recorded or inherited (after a merge: those both sides had)",
+		"part alias: Clone and Fork are specified as copies by value (a derived back-offer and its source never influence each other afterwards); GetTypes is demanded to list, per kind, at least the back-offs the back-offer recorded or inherited (= its GetBackoffTimes) and at most those plus the ones of its parent chain (documented: 'type list of this backoff and all its ancestors'); a probe call on an exhausted back-offer is treated as an observation because a refused call is specified to change nothing (that is checked too)",
 		"jitter answers are the two ends of the drawn range only (in a chain: the same end at every step of a kind); DecorrJitter is not used by any built-in kind and is explored by the chains part only",
 	})
 }
